@@ -122,6 +122,30 @@ def errors_rule(ctx, facts, rid):
         pass
 
 
+def _const_values(e):
+    """The constants an expression can take over the alternatives of its phis (`Cell::from_parts(side.inv(), Pawn)` in any spelling)."""
+    if e[0] == "const" and isinstance(e[1], int):
+        return {e[1]}
+    if e[0] == "phi":
+        out = set()
+        for _l, v in e[3]:
+            x = _const_values(v)
+            if x is None:
+                return None
+            out |= x
+        return out
+    if e[0] == "cast":
+        return _const_values(e[2])
+    if e[0] == "bin" and e[1] in ("Add", "BitOr", "AddUnchecked"):
+        a, b = _const_values(e[2]), _const_values(e[3])
+        if a is None or b is None:
+            return None
+        return {(x + y) if e[1] != "BitOr" else (x | y) for x in a for y in b}
+    if e[0] == "field" and e[2] == "#0" and e[1][0] == "bin" and e[1][1] == "AddWithOverflow":
+        return _const_values(("bin", "Add", e[1][2], e[1][3]))
+    return None
+
+
 def normalise_rule(ctx, facts, rid):
     r = ctx.rule(rid, "validation changes only the en-passant mark and castling rights, under exactly the documented conditions")
     fn, tree = _tree(facts)
@@ -190,11 +214,11 @@ def normalise_rule(ctx, facts, rid):
     for n_, conds, _i in walk_tree(tree):
         if n_[0] == "switch":
             d = unstamp(n_[1])
-            if d[0] == "bin" and d[1] == "Ne" and "raw.cells[(raw.ep_source as Some)]" in show(d):
-                other = d[2] if d[2][0] == "phi" else d[3]
-                if other[0] == "phi":
-                    vals = [v for _l, v in other[3]]
-                    okp = sorted(v[1] for v in vals if v[0] == "const") == [cell(WHITE, PAWN), cell(BLACK, PAWN)]
+            if d[0] == "bin" and d[1] in ("Ne", "Eq") and "raw.cells[(raw.ep_source as Some)]" in show(d):
+                other = d[3] if "raw.cells[(raw.ep_source as Some)]" in show(d[2]) else d[2]
+                vals = _const_values(other)
+                if vals is not None:
+                    okp = sorted(vals) == [cell(WHITE, PAWN), cell(BLACK, PAWN)]
     r.check(okp, "ep-reset/pawn-colour", "the man expected on the en-passant square is not the opponent's pawn", site=ctx.site(fn),
             what="ep square must hold pawn(side.inv())")
 
